@@ -177,7 +177,13 @@ impl Op {
 
 fn gen_cfg(_prop: &str, _tier: Tier, run_seed: u64) -> Value {
     let mut r = Rng::sub(run_seed, "cfg");
-    json!({ "big": r.chance(1, 2), "max_ops": r.range(10, 80) })
+    // small archives are where off-by-one errors live; a minority of runs works on larger ones
+    let max_size = match r.weighted(&[82, 14, 4]) {
+        0 => 96,
+        1 => 512,
+        _ => 2048,
+    };
+    json!({ "big": r.chance(1, 2), "max_ops": r.range(10, 80), "max_size": max_size })
 }
 
 fn shrink_cfg(_cfg: &Value) -> Vec<Value> {
@@ -294,9 +300,12 @@ fn gen_string(r: &mut Rng) -> String {
     r.pick(STRINGS).to_string()
 }
 
-fn gen_op(r: &mut Rng, w: &World, prop: &str) -> Op {
+fn gen_op(r: &mut Rng, w: &World, prop: &str, max_size: usize) -> Op {
     let size = w.m.size();
     if size == 0 && r.chance(9, 10) {
+        if max_size > 96 {
+            return Op::AllocateAtEnd { n: r.range(max_size / 8, max_size / 2) & !3 };
+        }
         return Op::AllocateAtEnd { n: *r.pick(&[4, 8, 12, 16, 24, 32, 6]) };
     }
     let c3 = prop == "C03";
@@ -309,7 +318,7 @@ fn gen_op(r: &mut Rng, w: &World, prop: &str) -> Op {
     };
     match r.weighted(&wts) {
         0 => {
-            let big = size > 96;
+            let big = size > max_size;
             match r.weighted(&[if big { 1 } else { 5 }, if big { 4 } else { 14 }, if big { 20 } else { 11 }, 5, 4]) {
                 0 => Op::AllocateAtEnd {
                     n: if r.chance(4, 5) { r.range(1, 4) * 4 } else { r.range(0, 7) },
@@ -1417,6 +1426,7 @@ fn run(cfg: &Value, ctx: &mut RunCtx) -> Step<()> {
     let big = cfg["big"].as_bool().unwrap_or(false);
     ctx.max_ops = cfg["max_ops"].as_u64().unwrap_or(40) as usize;
     let prop = ctx.prop.clone();
+    let max_size = cfg["max_size"].as_u64().unwrap_or(96) as usize;
     let mut w = World {
         a: BinArchive::new(endian(big)),
         m: ArchModel::new(big),
@@ -1428,7 +1438,7 @@ fn run(cfg: &Value, ctx: &mut RunCtx) -> Step<()> {
     };
     let mut rng = Rng::sub(ctx.run_seed, "ops");
     loop {
-        let op = ctx.next_op(|_c| Some(gen_op(&mut rng, &w, &prop)))?;
+        let op = ctx.next_op(|_c| Some(gen_op(&mut rng, &w, &prop, max_size)))?;
         let op: Op = match op {
             Some(o) => o,
             None => break,
